@@ -157,27 +157,87 @@ def observe_view(obj, alloc_bytes):
 def buffer_address(obj):
     """address handed out by __getbuffer__ (the export is released at once); None when
     ctypes is not available in the embedded interpreter"""
+    api = _raw_api()
+    if api is None:
+        return None
+    ctypes, PyBuffer, get, rel = api
+    try:
+        b = PyBuffer()
+        get(obj, ctypes.byref(b), 0x18)   # PyBUF_STRIDES
+        a = b.buf
+        rel(ctypes.byref(b))
+        return a
+    except BaseException:
+        return None
+
+
+# ------------------------------------------------------------------ raw buffer requests
+_RAW = {}
+
+
+def _raw_api():
+    if "api" in _RAW:
+        return _RAW["api"]
     try:
         import ctypes
 
         class PyBuffer(ctypes.Structure):
-            _fields_ = [("buf", ctypes.c_void_p), ("obj", ctypes.py_object), ("len", ctypes.c_ssize_t),
+            _fields_ = [("buf", ctypes.c_void_p), ("obj", ctypes.c_void_p), ("len", ctypes.c_ssize_t),
                         ("itemsize", ctypes.c_ssize_t), ("readonly", ctypes.c_int), ("ndim", ctypes.c_int),
                         ("format", ctypes.c_char_p), ("shape", ctypes.POINTER(ctypes.c_ssize_t)),
                         ("strides", ctypes.POINTER(ctypes.c_ssize_t)), ("suboffsets", ctypes.POINTER(ctypes.c_ssize_t)),
                         ("internal", ctypes.c_void_p)]
-        api = ctypes.pythonapi
-        api.PyObject_GetBuffer.argtypes = [ctypes.py_object, ctypes.POINTER(PyBuffer), ctypes.c_int]
-        api.PyObject_GetBuffer.restype = ctypes.c_int
-        api.PyBuffer_Release.argtypes = [ctypes.POINTER(PyBuffer)]
-        b = PyBuffer()
-        if api.PyObject_GetBuffer(obj, ctypes.byref(b), 0x18) != 0:   # PyBUF_STRIDES
-            return None
-        a = b.buf
-        api.PyBuffer_Release(ctypes.byref(b))
-        return a
+        get = ctypes.pythonapi.PyObject_GetBuffer
+        get.argtypes = [ctypes.py_object, ctypes.c_void_p, ctypes.c_int]
+        get.restype = ctypes.c_int
+        rel = ctypes.pythonapi.PyBuffer_Release
+        rel.argtypes = [ctypes.c_void_p]
+        rel.restype = None
+        _RAW["api"] = (ctypes, PyBuffer, get, rel)
     except Exception:
-        return None
+        _RAW["api"] = None
+    return _RAW["api"]
+
+
+RAW_FLAGS = [0x0, 0x1, 0x4, 0x8, 0x18, 0x1c, 0x11c, 0x11d, 0x38, 0x39, 0x58, 0x98, 0x100, 0x1d]
+
+
+def observe_raw(obj, line):
+    """PyObject_GetBuffer(obj, &view, flags) for explicit flags (memoryview always asks for
+    PyBUF_FULL_RO): per request  flags:E<n>  or
+    flags:len/itemsize/readonly/ndim/format|N/shape|N/strides|N/suboffsets-null/internal-null/
+          view.obj-is-exporter/refcount-delta-while-exported/refcount-delta-after-release
+    plus  null:<outcome>  for a NULL view pointer.  Nothing is read through the buffer."""
+    api = _raw_api()
+    if api is None:
+        return "NA"
+    ctypes, PyBuffer, get, rel = api
+    import zlib
+    h = zlib.crc32(line.encode())
+    flags = RAW_FLAGS + [h & 0x1ff, (h >> 9) & 0x1ff, (h >> 18) & 0x1ff]
+    out = []
+    for fl in flags:
+        b = PyBuffer()
+        r0 = sys.getrefcount(obj)
+        try:
+            get(obj, ctypes.byref(b), fl)
+        except BaseException as e:
+            out.append("%d:%s" % (fl, exc_token(e)))
+            continue
+        nd = b.ndim
+        lst = lambda p: ",".join(str(p[i]) for i in range(nd)) if p else "N"
+        tok = "%d/%d/%d/%d/%s/%s/%s/%d/%d/%d/%d" % (
+            b.len, b.itemsize, b.readonly, nd, b.format.decode() if b.format is not None else "N",
+            lst(b.shape) if nd <= 4 else "?", lst(b.strides) if nd <= 4 else "?", 0 if b.suboffsets else 1,
+            1 if b.internal is None else 0, 1 if b.obj == id(obj) else 0, sys.getrefcount(obj) - r0)
+        rel(ctypes.byref(b))
+        out.append("%d:%s/%d" % (fl, tok, sys.getrefcount(obj) - r0))
+    try:
+        get(obj, None, 0)
+        out.append("null:granted")
+    except BaseException as e:
+        out.append("null:" + exc_token(e))
+    return "|".join(out)
 
 
 # ------------------------------------------------------------------ construction
@@ -205,8 +265,77 @@ def columns_dict(rows, abc, omit, conv):
     return d
 
 
+def write_motif_file(fmt, name, rows):
+    """one record of a DNA count matrix (rows of A,C,T,G,N counts) in a motif file format"""
+    col = lambda k: [r[k] for r in rows]
+    a, c, t, g = col(0), col(1), col(2), col(3)
+    if fmt == "jaspar":
+        # legacy JASPAR: header, then the A, C, G, T counts as four bare lines of numbers
+        return ">%s demo\n" % name + "".join(" ".join("%3d" % x for x in v) + "\n" for v in (a, c, g, t))
+    if fmt == "jaspar16":
+        return ">%s demo motif\n" % name + "".join("%s [ %s ]\n" % (s, " ".join(str(x) for x in v))
+                                                    for s, v in (("A", a), ("C", c), ("G", g), ("T", t)))
+    if fmt == "transfac":
+        body = "".join("%02d\t%d.0\t%d.0\t%d.0\t%d.0\n" % (i + 1, a[i], c[i], g[i], t[i]) for i in range(len(rows)))
+        return "AC %s\nXX\nID %s\nXX\nDE %s demo\nPO\tA\tC\tG\tT\n%sXX\n//\n" % (name, name, name, body)
+    raise ValueError(fmt)
+
+
+def motif_from_source(lib, f, prot):
+    """a Motif built through another construction path than the class constructors:
+    src=create (seqs=...) or src=load:<format>[:path] (rows= count rows, DNA);
+    returns (motif, count rows)"""
+    abc = PROT if prot else DNA
+    src = f["src"]
+    if src == "create":
+        seqs = f["seqs"].split(",")
+        W = len(seqs[0])
+        rows = [[sum(1 for q in seqs if q[i] == a) for a in abc] for i in range(W)]
+        return lib.create(tuple(seqs) if f.get("tup") == "1" else seqs, protein=bool(prot)), rows
+    kind, fmt = src.split(":")[0], src.split(":")[1]
+    rows = [[int(c) for c in r] for r in parse_rows(f.get("rows", ""))]
+    nth = int(f.get("nth", "0"))
+    other = [[1, 2, 3, 4, 0], [4, 3, 2, 1, 0]]
+    recs = [("MX%04d" % i, rows if i == nth else other) for i in range(nth + 1 if fmt == "jaspar" else 2 + nth)]
+    if fmt == "jaspar":
+        recs = recs[-1:]        # the legacy JASPAR reader is exercised with one record per file
+        nth_ = 0
+    else:
+        nth_ = nth
+    text = "".join(write_motif_file(fmt, n, r) for n, r in recs).encode()
+    import io
+    if src.endswith(":path"):
+        import tempfile
+        with tempfile.NamedTemporaryFile("w+b", suffix="." + fmt) as fh:
+            fh.write(text)
+            fh.flush()
+            motifs = list(lib.load(fh.name, fmt))
+    else:
+        motifs = list(lib.load(io.BytesIO(text), fmt))
+    return motifs[nth_], rows
+
+
+def core_matrices(prot, rows=None, seqs=None):
+    """(weights, scores) of the core library for a count matrix — counts.to_freq(0).to_weight(None)
+    and .to_scoring() — rendered by the lmcore oracle of pyharness (IEEE bit patterns)"""
+    import lmcore
+    cm = lmcore.count_from_seqs(bool(prot), seqs) if seqs is not None else lmcore.count_new(bool(prot), rows)
+    wm = lmcore.to_weight(lmcore.to_freq(cm, "S", [f32bits(0.0)]))
+    sm = lmcore.to_scoring(wm)
+    tab = lambda txt: [[int(x) for x in r.split(",")] for r in txt.split(":")[-1].split("/")] if not txt.endswith(":-") else []
+    return tab(lmcore.content(wm)), tab(lmcore.content(sm))
+
+
 def make_scoring(lib, f, prot):
     abc = PROT if prot else DNA
+    if "src" in f:
+        motif, rows = motif_from_source(lib, f, prot)
+        _, logical = core_matrices(prot, rows)
+        pssm = motif.pssm
+        if f.get("rc") == "1":
+            pssm = pssm.reverse_complement()
+            logical = [[r[p] for p in (2, 3, 0, 1, 4)] for r in reversed(logical)]
+        return pssm, logical
     rows = parse_rows(f.get("rows", ""))
     omit = f.get("omit", "")
     if "bg" in f:       # background frequencies as f32 bit patterns, one per symbol (wildcard included)
@@ -220,6 +349,28 @@ def make_scoring(lib, f, prot):
         perm = [2, 3, 0, 1, 4]
         logical = [[r[p] for p in perm] for r in reversed(logical)]
     return pssm, logical
+
+
+def scan_pssm(lib, M):
+    """a DNA motif of M rows with some structure, for live Scanners"""
+    pat = [[1.0, 0.0, -1.0, 0.5], [0.0, 1.0, 0.5, -1.0], [-1.0, 0.5, 1.0, 0.0]]
+    return lib.ScoringMatrix({s: [pat[i % 3][k] for i in range(M)] for k, s in enumerate("ACTG")})
+
+
+def reconfigure(lib, obj, op, prot, scanners):
+    """one history step on a StripedSequence: c<M> calculate, s<M> new live Scanner, n advance
+    every live Scanner, returns the motif width that reconfigured the sequence (or None)"""
+    if op.startswith("c"):
+        zero_pssm(lib, int(op[1:]), prot).calculate(obj)
+        return int(op[1:])
+    if op.startswith("s") and not prot:
+        M = int(op[1:])
+        scanners.append(lib.Scanner(scan_pssm(lib, M), obj, 0.5, 1 + M % 3))
+        return M
+    if op == "n":
+        for sc in scanners:
+            next(sc, None)
+    return None
 
 
 def weights_logical(rows, K):
@@ -315,7 +466,11 @@ def zero_pssm(lib, M, prot):
     return lib.ScoringMatrix({s: [0.0] * M for s in abc[:-1]}, protein=bool(prot))
 
 
+RAWOBJ = [None, ""]
+
+
 def run_case(lib, line):
+    RAWOBJ[0], RAWOBJ[1] = None, ""
     toks = line.split(" ")
     f = dict(t.split("=", 1) for t in toks[1:] if "=" in t)
     cls = f["cls"]
@@ -329,7 +484,11 @@ def run_case(lib, line):
         obj = lib.EncodedSequence(seq, bool(prot))
         if f.get("copy") == "1":
             obj = obj.copy()
+        elif f.get("copy") == "2":
+            import copy
+            obj = copy.copy(obj)
         codes = encode(seq, prot)
+        RAWOBJ[0] = obj
         return "obj=seq:%s %s views=@%s" % (",".join(map(str, codes)), observe_index(obj, len(codes), True, ident),
                                             observe_view(obj, len(codes)))
 
@@ -342,17 +501,22 @@ def run_case(lib, line):
             obj = lib.stripe(seq, protein=bool(prot))
         else:
             obj = lib.EncodedSequence(seq, bool(prot)).stripe()
-        wraps, views, wrap = [], [], 0
+        wraps, views, wrap, scanners = [], [], 0, []
         for op in f.get("hist", "v").split(";"):
             if op == "v":
                 views.append("%s@%s" % (",".join(map(str, wraps)), observe_view(obj, (R + wrap) * LANES)))
             elif op == "k":
                 obj = obj.copy()
-            elif op.startswith("c"):
-                M = int(op[1:])
-                zero_pssm(lib, M, prot).calculate(obj)
-                wraps.append(M)
-                wrap = max(wrap, M - 1)
+            elif op == "K":
+                import copy
+                obj = copy.copy(obj)
+            else:
+                M = reconfigure(lib, obj, op, prot, scanners)
+                if M is not None:
+                    wraps.append(M)
+                    wrap = max(wrap, M - 1)
+        RAWOBJ[0] = obj
+        RAWOBJ[1] = ",".join(map(str, wraps))
         return "obj=striped:%d:%s:0 LM=%d,0 %s views=%s" % (R, ",".join(map(str, pos)), L,
                                                              observe_index(obj, 0, False, ident), "|".join(views))
 
@@ -376,13 +540,13 @@ def run_case(lib, line):
 
     if cls in ("count", "weight"):
         abc = PROT if prot else DNA
-        if "seqs" in f:
-            seqs = f["seqs"].split(",")
-            motif = lib.create(seqs, protein=bool(prot))
-            W = len(seqs[0])
-            rows = [[sum(1 for s in seqs if s[i] == a) for a in abc] for i in range(W)]
+        if "src" in f or "seqs" in f:
+            if "src" not in f:
+                f["src"] = "create"
+            motif, rows = motif_from_source(lib, f, prot)
             cm = motif.counts
             wm = motif.pwm
+            wlog, _ = core_matrices(prot, rows)
         else:
             rows = [[int(c) for c in r] for r in parse_rows(f.get("rows", ""))]
             cm = lib.CountMatrix(columns_dict(rows, abc, f.get("omit", ""), int), protein=bool(prot))
@@ -391,16 +555,20 @@ def run_case(lib, line):
                     if s in f.get("omit", ""):
                         r[k] = 0
             wm = None
+            wlog = weights_logical(rows, K)
         if cls == "count":
+            RAWOBJ[0] = cm
             return "obj=rows:%d:%s %s views=@%s" % (K, rows_token(rows), observe_index(cm, len(rows), True, ident),
                                                     observe_view(cm, 0))
         if wm is None:
             wm = cm.normalize()
-        return "obj=rows:%d:%s %s views=@%s" % (K, rows_token(weights_logical(rows, K)),
+        RAWOBJ[0] = wm
+        return "obj=rows:%d:%s %s views=@%s" % (K, rows_token(wlog),
                                                 observe_index(wm, len(rows), True, f32bits), observe_view(wm, 0))
 
     if cls == "scoring":
         pssm, logical = make_scoring(lib, f, prot)
+        RAWOBJ[0] = pssm
         return "obj=rows:%d:%s %s views=@%s" % (K, rows_token(logical), observe_index(pssm, len(logical), True, f32bits),
                                                 observe_view(pssm, len(logical) * stride(4, K) * 4))
 
@@ -411,6 +579,7 @@ def run_case(lib, line):
         sf = dist_logical(logical, K, bg)
         if f.get("again") == "1":      # the cached distribution object must be the same data
             d = pssm.score_distribution
+        RAWOBJ[0] = d
         return "obj=seq:%s %s views=@%s" % (",".join(map(str, sf)), observe_index(d, 0, False, f64bits),
                                             observe_view(d, len(sf) * 8))
 
@@ -419,10 +588,12 @@ def run_case(lib, line):
         codes = encode(seq, prot)
         L, M = len(codes), len(logical)
         sseq = lib.stripe(seq, protein=bool(prot))
+        scanners = []
         for op in f.get("hist", "").split(";"):
-            if op.startswith("c"):
-                zero_pssm(lib, int(op[1:]), prot).calculate(sseq)
+            reconfigure(lib, sseq, op, prot, scanners)
         sc = pssm.calculate(sseq)
+        reconfigure(lib, sseq, "n", prot, scanners)
+        RAWOBJ[0] = sc
         if L < M:
             R, pos, maxi = 0, [], 0
         else:
@@ -527,6 +698,27 @@ def rand_omit(rng, abc):
     return "".join(s for s in abc[1:] if rng.random() < 0.25)
 
 
+def rand_source(rng, t, M, prot, K):
+    """tokens of a Motif built by create() or load(): count rows (no all-zero row)"""
+    if prot or rng.random() < 0.4:
+        ns = rng.randrange(1, 9)
+        t.append("src=create")
+        t.append("seqs=" + ",".join(rand_seq(rng, M, prot).replace("N" if not prot else "\0", "A") if not prot
+                                    else rand_seq(rng, M, prot) for _ in range(ns)))
+        if rng.random() < 0.3:
+            t.append("tup=1")
+    else:
+        fmt = rng.choice(["jaspar", "jaspar16", "transfac"])
+        t.append("src=load:" + fmt + (":path" if rng.random() < 0.3 else ""))
+        rows = rand_count_rows(rng, M, K)
+        for r in rows:
+            r[0] += r[K - 1] + (1 if sum(r[:K - 1]) == 0 else 0)     # the file formats have no wildcard column
+            r[K - 1] = 0
+        t.append("rows=" + rows_token(rows))
+        if fmt != "jaspar" and rng.random() < 0.5:
+            t.append("nth=1")
+
+
 def gen(seed, n, tier):
     rng = random.Random(seed * 1000003 + 17)
     classes = ["enc"] * 3 + ["striped"] * 4 + ["count"] * 2 + ["weight"] * 2 + ["scoring"] * 4 + ["dist"] * 1 + ["scores"] * 4 + ["alloc"]
@@ -540,14 +732,19 @@ def gen(seed, n, tier):
             t.append("big=1")
         if cls == "enc":
             t.append("seq=" + rand_seq(rng, rand_len(rng, tier), prot))
-            if rng.random() < 0.3:
+            r = rng.random()
+            if r < 0.25:
                 t.append("copy=1")
+            elif r < 0.45:
+                t.append("copy=2")       # copy.copy -> __copy__
         elif cls == "striped":
             t.append("seq=" + rand_seq(rng, rand_len(rng, tier), prot))
             t.append("via=" + rng.choice(["fn", "enc"]))
             ops = ["v"]
-            for _ in range(rng.randrange(0, 5)):
-                ops.append(rng.choice(["c%d" % rand_width(rng), "c%d" % rand_width(rng), "k"]))
+            for _ in range(rng.randrange(0, 6)):
+                # calculate(), copy()/copy.copy(), a new live Scanner (DNA), advancing the live Scanners
+                ops.append(rng.choice(["c%d" % rand_width(rng), "c%d" % rand_width(rng), "k", "K"] +
+                                      ([] if prot else ["s%d" % rand_width(rng), "s%d" % rand_width(rng), "n", "n"])))
                 if rng.random() < 0.8:
                     ops.append("v")
             t.append("hist=" + ";".join(ops))
@@ -565,9 +762,8 @@ def gen(seed, n, tier):
             t.append("hist=" + ";".join("c%d" % w for w in ws))
         elif cls in ("count", "weight"):
             M = rng.choice([0, 1, 1, 2, 3, 5, 8, 13, 20])
-            if rng.random() < 0.25 and M > 0:
-                ns = rng.randrange(1, 9)
-                t.append("seqs=" + ",".join(rand_seq(rng, M, prot) for _ in range(ns)))
+            if rng.random() < 0.4 and M > 0:
+                rand_source(rng, t, M, prot, K)
             else:
                 rows = rand_count_rows(rng, M, K)
                 om = rand_omit(rng, abc)
@@ -580,12 +776,20 @@ def gen(seed, n, tier):
                     t.append("omit=" + om)
         elif cls == "scoring":
             M = rng.choice([0, 1, 1, 2, 3, 4, 7, 8, 9, 15, 30])
-            t.append("rows=" + (rows_token(rand_score_rows(rng, M, K)) or "-"))
-            om = rand_omit(rng, abc)
-            if om:
-                t.append("omit=" + om)
+            if rng.random() < 0.3 and M > 0:
+                rand_source(rng, t, M, prot, K)
+            else:
+                t.append("rows=" + (rows_token(rand_score_rows(rng, M, K)) or "-"))
+                om = rand_omit(rng, abc)
+                if om:
+                    t.append("omit=" + om)
+                bg = rand_background(rng, K) if rng.random() < 0.3 else None
+                if bg:
+                    t.append("bg=" + ",".join(str(f32bits(x)) for x in bg))
             if not prot and rng.random() < 0.3:
                 t.append("rc=1")
+        elif cls == "dist" and rng.random() < 0.2:
+            rand_source(rng, t, rng.choice([1, 2, 3]), prot, K)
         elif cls == "dist":
             M = rng.choice([1, 1, 2, 3])
             rows = rand_score_rows(rng, M, K)
@@ -613,9 +817,13 @@ def gen(seed, n, tier):
             if rng.random() < 0.5:
                 L = max(L, M + rng.randrange(0, 40))
             t.append("seq=" + rand_seq(rng, L, prot))
-            t.append("rows=" + rows_token(rand_score_rows(rng, M, K)))
+            if rng.random() < 0.2:
+                rand_source(rng, t, M, prot, K)
+            else:
+                t.append("rows=" + rows_token(rand_score_rows(rng, M, K)))
             if rng.random() < 0.4:
-                t.append("hist=" + ";".join("c%d" % rand_width(rng) for _ in range(rng.randrange(1, 3))))
+                t.append("hist=" + ";".join(rng.choice(["c%d", "c%d", "s%d"] if not prot else ["c%d"]) % rand_width(rng)
+                                            for _ in range(rng.randrange(1, 3))))
         out(" ".join(t))
 
 
@@ -632,8 +840,11 @@ def main():
             continue
         try:
             obs = run_case(lib, line)
+            if RAWOBJ[0] is not None:
+                obs += " raw=%s@%s" % (RAWOBJ[1], observe_raw(RAWOBJ[0], line))
         except BaseException as e:
             obs = "ctor=" + exc_token(e) + ":" + str(e).replace(" ", "_")[:80]
+        RAWOBJ[0] = None
         out(line + " => " + obs)
     sys.stdout.flush()
 
